@@ -35,7 +35,11 @@ func (cache *SHashTxCache) GetSHashTxCache(sHash string) *types.Transaction {
 
 // Remove remove tx of SHashTxCache
 func (cache *SHashTxCache) Remove(txHash string) {
-	cache.l.Remove(types.CalcTxShortHash(types.Str2Bytes(txHash)))
+	shash := types.CalcTxShortHash(types.Str2Bytes(txHash))
+	if tx := cache.GetSHashTxCache(shash); tx != nil && string(tx.Hash()) != txHash {
+		return // the entry belongs to another transaction with the same short hash
+	}
+	cache.l.Remove(shash)
 	//shashlog.Debug("SHashTxCache:Remove", "shash", types.CalcTxShortHash(txhash), "txhash", common.ToHex(txhash))
 }
 
